@@ -57,6 +57,7 @@ type c15World struct {
 	storedHeight int64
 	stored       map[string]c15Val // cons address -> validator
 	enabled      bool
+	client       string // the L1 client id configured in the bridge info ("" = not yet configured)
 	log          []string
 }
 
@@ -74,7 +75,7 @@ func c15SignBytes(chainID string, height int64, round int64, ext []byte) []byte 
 func (w *c15World) setBridgeInfo(enabled bool) {
 	cfg := henv.DefaultBridgeConfig(w.exec.Str, w.exec.Str, time.Hour)
 	cfg.OracleEnabled = enabled
-	info := opchildtypes.BridgeInfo{BridgeId: 1, BridgeAddr: "bridge-addr", L1ChainId: c15ChainID, L1ClientId: c15ClientID, BridgeConfig: cfg}
+	info := opchildtypes.BridgeInfo{BridgeId: 1, BridgeAddr: "bridge-addr", L1ChainId: c15ChainID, L1ClientId: w.client, BridgeConfig: cfg}
 	if r := w.l2.Deliver(opchildtypes.NewMsgSetBridgeInfo(w.exec.Str, info)); !r.OK() {
 		panic(r.Err)
 	}
@@ -85,6 +86,10 @@ func newC15World(rt *rapid.T) *c15World {
 	w := &c15World{exec: henv.MakeUser("c15-exec"), stranger: henv.MakeUser("c15-stranger"), stored: map[string]c15Val{}}
 	w.l2 = henv.NewL2(henv.L2Options{Admin: w.exec.Str, Executors: []string{w.exec.Str}})
 	w.l2.Ctx = w.l2.Ctx.WithBlockHeight(50)
+	w.client = c15ClientID
+	if rapid.IntRange(0, 3).Draw(rt, "clientLater") == 0 {
+		w.client = "" // the client id is configured later in the history
+	}
 	w.setBridgeInfo(true)
 	w.l2.OK.InitGenesis(w.l2.Ctx, oracletypes.GenesisState{CurrencyPairGenesis: []oracletypes.CurrencyPairGenesis{}})
 	np := rapid.IntRange(1, 4).Draw(rt, "npairs")
@@ -138,6 +143,10 @@ func (w *c15World) refresh(rt *rapid.T, forceValid ...bool) error {
 	hkind := rapid.SampledFrom([]string{"higher", "higher", "equal", "lower"}).Draw(rt, "hkind")
 	if len(forceValid) > 0 && forceValid[0] {
 		clientID, hkind = c15ClientID, "higher"
+		if w.client == "" {
+			w.client = c15ClientID
+			w.setBridgeInfo(w.enabled)
+		}
 	}
 	var height int64
 	switch hkind {
@@ -166,10 +175,10 @@ func (w *c15World) refresh(rt *rapid.T, forceValid ...bool) error {
 	if err != nil {
 		return fmt.Errorf("validator-set refresh returned an error: %v", err)
 	}
-	if clientID == c15ClientID && height > w.storedHeight {
+	if clientID != "" && clientID == w.client && height > w.storedHeight {
 		w.storedHeight, w.stored = height, offered
 	}
-	w.logf("refresh(client=%q height=%d n=%d) -> stored height %d", clientID, height, len(set.Validators), w.storedHeight)
+	w.logf("refresh(client=%q configured=%q height=%d n=%d) -> stored height %d", clientID, w.client, height, len(set.Validators), w.storedHeight)
 	return w.checkStored()
 }
 
@@ -297,8 +306,9 @@ func (w *c15World) buildEntry(rt *rapid.T, kind string, v c15Val, height int64, 
 // honestPower is the independent quorum arithmetic: per pair, the power of distinct stored
 // validators with a commit entry whose signature verifies for (chain, height-1, round, ext)
 // under the stored key and whose extension carries a decodable price for the pair.
-func (w *c15World) honestPower(votes []cometabci.ExtendedVoteInfo, height int64, round int32) (perPair map[string]int64, total int64) {
+func (w *c15World) honestPower(votes []cometabci.ExtendedVoteInfo, height int64, round int32) (perPair map[string]int64, total int64, values map[string]map[string]bool) {
 	perPair = map[string]int64{}
+	values = map[string]map[string]bool{}
 	for _, v := range w.stored {
 		total += v.power
 	}
@@ -326,6 +336,10 @@ func (w *c15World) honestPower(votes []cometabci.ExtendedVoteInfo, height int64,
 			if err := x.GobDecode(bz); err != nil || x.Sign() < 0 {
 				continue
 			}
+			if values[p] == nil {
+				values[p] = map[string]bool{}
+			}
+			values[p][x.String()] = true
 			if counted[p] == nil {
 				counted[p] = map[string]bool{}
 			}
@@ -335,10 +349,10 @@ func (w *c15World) honestPower(votes []cometabci.ExtendedVoteInfo, height int64,
 			}
 		}
 	}
-	return perPair, total
+	return perPair, total, values
 }
 
-var c15Kinds = []weighted{{"honest", 30}, {"subset", 3}, {"missing", 3}, {"duplicate", 2}, {"other-key", 1}, {"wrong-chain", 1}, {"height+1", 1}, {"height-1", 1}, {"round+1", 1},
+var c15Kinds = []weighted{{"honest", 30}, {"subset", 3}, {"missing", 3}, {"duplicate", 2}, {"dup-forged", 2}, {"other-key", 1}, {"wrong-chain", 1}, {"height+1", 1}, {"height-1", 1}, {"round+1", 1},
 	{"altered", 1}, {"unknown-validator", 2}, {"nil-vote", 2}, {"absent", 2}, {"nil-with-payload", 1}, {"no-signature", 1}, {"oversized", 1}, {"unknown-pair", 1}, {"no-timestamp", 1}}
 
 func TestC15Rapid(t *testing.T) {
@@ -360,6 +374,10 @@ func TestC15Rapid(t *testing.T) {
 				}
 				return
 			case "toggle":
+				if w.client == "" && rapid.Bool().Draw(rt, "configure") {
+					w.client = c15ClientID
+					w.logf("client id configured")
+				}
 				w.setBridgeInfo(!w.enabled)
 				w.logf("oracle enabled = %v", w.enabled)
 				return
@@ -400,6 +418,16 @@ func TestC15Rapid(t *testing.T) {
 				case "duplicate":
 					votes = append(votes, w.buildEntry(rt, "honest", v, height, round, ts, basePrice), w.buildEntry(rt, "honest", v, height, round, ts, basePrice+7))
 					forged++
+				case "dup-forged":
+					// a genuine vote followed by a repeat for the same validator that was never signed by it
+					forgedEntry := w.buildEntry(rt, "honest", v, height, round, ts, basePrice*5+11)
+					if rapid.Bool().Draw(rt, "nosig") {
+						forgedEntry.ExtensionSignature = []byte("not a signature")
+					} else {
+						forgedEntry.ExtensionSignature = w.buildEntry(rt, "honest", v, height, round, ts, basePrice).ExtensionSignature
+					}
+					votes = append(votes, w.buildEntry(rt, "honest", v, height, round, ts, basePrice), forgedEntry)
+					forged++
 				case "unknown-validator":
 					u := henv.MakeConsKey("unknown-" + fmt.Sprint(len(votes)))
 					votes = append(votes, w.buildEntry(rt, "honest", c15Val{priv: u, power: 1_000_000, addr: u.PubKey().Address()}, height, round, ts, basePrice*3))
@@ -425,7 +453,7 @@ func TestC15Rapid(t *testing.T) {
 			before, digest := w.prices(), w.l2.Digest()
 			r := w.l2.Deliver(opchildtypes.NewMsgUpdateOracle(sender, uint64(height), data))
 			after := w.prices()
-			perPair, total := w.honestPower(votes, height, round)
+			perPair, total, values := w.honestPower(votes, height, round)
 			w.logf("update(sender=%s height=%d stored=%d round=%d ts=%d entries=%v) -> %v", short(sender), height, w.storedHeight, round, ts, kinds, r.Err)
 			if !r.OK() && digest != w.l2.Digest() {
 				fail("a failed oracle update changed state")
@@ -447,6 +475,13 @@ func TestC15Rapid(t *testing.T) {
 				}
 				if 3*perPair[p] < 2*total {
 					fail("price of %s changed with validly signed votes of only %d out of %d power (< 2/3)", p, perPair[p], total)
+				}
+				newVal := after[p].price
+				if p == c15TsPair {
+					newVal = fmt.Sprint(after[p].ts)
+				}
+				if !values[p][newVal] {
+					fail("%s was set to %s, a value that no validly signed vote carries (repeated, unsigned or foreign entries must contribute nothing)", p, newVal)
 				}
 				if before[p].ok && after[p].ts <= before[p].ts {
 					fail("timestamp of %s went from %d to %d (must strictly increase)", p, before[p].ts, after[p].ts)
